@@ -5,5 +5,5 @@ CONSTANTS
   Big = @BIG@
   Nrhs = @NRHS@
   Seed = @SEED@
-INVARIANTS LuLemma SolveLemma CholLemma QrLemma LarftLemma PivotLemma InverseLemma
+INVARIANTS LuLemma SolveLemma CholLemma QrLemma LarftLemma PivotLemma InverseLemma LsLemma
 CHECK_DEADLOCK FALSE
